@@ -223,3 +223,12 @@ let () =
   register "bl.mlops" (function [h; ops] ->
       show_opsrun (BinOps.lexer_ops (bytes_of_hex h) (L.map parse_bop (split_ops ops))) | _ -> "BADCASE")
 (* <<< a_c08 *)
+
+(* >>> a_c08: error accessors (class only; offsets/messages are not canonical) *)
+let () =
+  register "bl.errapi" (function [h] ->
+      let (_, (e, _)) = BinLexer.run_lexer (bytes_of_hex h) in
+      let x = (match e with Bytes.Ok () -> "END" | Bytes.Err c -> "ERR:" ^ string_of_n c ^ ":1" | _ -> crash_tag) in
+      x ^ " " ^ x
+    | _ -> "BADCASE")
+(* <<< a_c08 *)
